@@ -28,7 +28,11 @@ type CaseC16 struct {
 	NDShape    string `json:"nd_shape,omitempty"`
 	NDFoodYaml bool   `json:"nd_food_yaml,omitempty"` // a food.yaml exists in the cwd
 	NDNamedBy  string `json:"nd_named_by,omitempty"`  // "", "flag", "env", "config"
-	Only       string `json:"only,omitempty"`
+	NDFalse    bool   `json:"nd_false,omitempty"`     // the switch is written --no-database=false: the book must be used as usual
+	// DefaultSpelling: the flag (and environment) value of the book and log paths is spelled exactly like
+	// the documented default (food.yaml / log.yaml); it must still win over the configuration file
+	DefaultSpelling bool   `json:"default_spelling,omitempty"`
+	Only            string `json:"only,omitempty"`
 }
 
 var c16Settings = []string{"db", "log", "datefmt", "depth", "today"}
@@ -59,6 +63,8 @@ func genC16(thorough bool) func(t *rapid.T) Case {
 		c.NDShape = rapid.SampledFrom([]string{"reg", "bal", "report totals", "report unresolved", "csv database-resolved", "bal -s", "summary", "csv database", "stats"}).Draw(t, "nd_shape")
 		c.NDFoodYaml = rapid.Bool().Draw(t, "nd_food_yaml")
 		c.NDNamedBy = rapid.SampledFrom([]string{"", "flag", "env", "config"}).Draw(t, "nd_named_by")
+		c.NDFalse = rapid.IntRange(0, 3).Draw(t, "nd_false") == 3
+		c.DefaultSpelling = rapid.IntRange(0, 3).Draw(t, "default_spelling") == 3
 		return c
 	}
 }
@@ -112,11 +118,16 @@ func (c *CaseC16) build(cell cellC16, argvTail []string, logLayout string, chain
 			FileSpec{Path: c16Log[lvl], Kind: "file", Data: day + ":\n  LOG_" + lvl + ": 1\n", Plan: ReadPlan{FaultAt: -1}})
 	}
 	var g []string
+	dbFlag, logFlag, dbEnv, logEnv := c16DB["flag"], c16Log["flag"], c16DB["env"], c16Log["env"]
+	if c.DefaultSpelling {
+		// the value a user types is the default's own spelling; the default-named files then ARE the flag's / env's files
+		dbFlag, logFlag, dbEnv, logEnv = c16DB["default"], c16Log["default"], c16DB["default"], c16Log["default"]
+	}
 	if cell.flag["db"] {
-		g = append(g, "-d", c16DB["flag"])
+		g = append(g, "-d", dbFlag)
 	}
 	if cell.flag["log"] {
-		g = append(g, "-l", c16Log["flag"])
+		g = append(g, "-l", logFlag)
 	}
 	if cell.flag["datefmt"] {
 		g = append(g, "--date-format", c16Layouts["flag"])
@@ -128,10 +139,10 @@ func (c *CaseC16) build(cell cellC16, argvTail []string, logLayout string, chain
 		g = append(g, "--today", c16FlagDay.Format(c16Layouts[eff["datefmt"]]))
 	}
 	if cell.env["db"] {
-		w.Env["HR_DATABASE"] = c16DB["env"]
+		w.Env["HR_DATABASE"] = dbEnv
 	}
 	if cell.env["log"] {
-		w.Env["HR_LOGFILE"] = c16Log["env"]
+		w.Env["HR_LOGFILE"] = logEnv
 	}
 	if cell.env["datefmt"] {
 		w.Env["HR_DATE_FORMAT"] = c16Layouts["env"]
@@ -216,11 +227,19 @@ func (c *CaseC16) Eval(ob *Obs) []Finding {
 				switch f {
 				case "db":
 					r := ob.run(c.build(cell, []string{"csv", "database"}, effLayout, 1, c.Locator))
+					win := win
+					if c.DefaultSpelling && (win == "flag" || win == "env") {
+						win = "default" // the winning source names the default-named file
+					}
 					if r.Failed || !strings.Contains(r.Stdout, "DB_"+win+",") || strings.Count(r.Stdout, "DB_") != 1 {
 						fail(fmt.Sprintf("csv database should read the %s book; failed=%v (%s) output %q", win, r.Failed, r.Err, short(r.Stdout, 120)))
 					}
 				case "log":
 					r := ob.run(c.build(cell, []string{"csv", "log"}, effLayout, 1, c.Locator))
+					win := win
+					if c.DefaultSpelling && (win == "flag" || win == "env") {
+						win = "default"
+					}
 					if r.Failed || !strings.Contains(r.Stdout, "LOG_"+win+",") || strings.Count(r.Stdout, "LOG_") != 1 {
 						fail(fmt.Sprintf("csv log should read the %s log; failed=%v (%s) output %q", win, r.Failed, r.Err, short(r.Stdout, 120)))
 					}
@@ -359,7 +378,20 @@ func (c *CaseC16) evalNoDatabase(ob *Obs) []Finding {
 			w.Files = append(w.Files, FileSpec{Path: "food.yaml", Kind: "file", Data: book, Plan: ReadPlan{FaultAt: -1}})
 		}
 		var g []string
-		if noDB {
+		if noDB && c.NDFalse {
+			// an explicit false: the book named below must be read as if the switch were absent
+			g = append(g, "--no-database=false")
+			switch c.NDNamedBy {
+			case "flag":
+				g = append(g, "-d", "/sim/named.yaml")
+			case "env":
+				w.Env["HR_DATABASE"] = "/sim/named.yaml"
+			case "config":
+				w.Files = append(w.Files, FileSpec{Path: w.Home + "/.hranoprovod/config", Kind: "file", Data: "[Global]\nDbFileName=/sim/named.yaml\n", Plan: ReadPlan{FaultAt: -1}})
+			default:
+				g = append(g, "-d", "/sim/named.yaml")
+			}
+		} else if noDB {
 			g = append(g, "--no-database")
 			switch c.NDNamedBy {
 			case "flag":
@@ -369,6 +401,8 @@ func (c *CaseC16) evalNoDatabase(ob *Obs) []Finding {
 			case "config":
 				w.Files = append(w.Files, FileSpec{Path: w.Home + "/.hranoprovod/config", Kind: "file", Data: "[Global]\nDbFileName=/sim/named.yaml\n", Plan: ReadPlan{FaultAt: -1}})
 			}
+		} else if c.NDFalse {
+			g = append(g, "-d", "/sim/named.yaml") // the twin: the same book, no switch at all
 		} else {
 			g = append(g, "-d", "/sim/empty.yaml")
 		}
@@ -391,6 +425,10 @@ func (c *CaseC16) evalNoDatabase(ob *Obs) []Finding {
 		re := regexp.MustCompile(`Database records:\s+(\d+)`)
 		a, b := re.FindStringSubmatch(with.Stdout), re.FindStringSubmatch(empty.Stdout)
 		same = !with.Failed && a != nil && b != nil && a[1] == b[1]
+	}
+	if !same && c.NDFalse {
+		return []Finding{{"C16 no-database-false-is-not-absent cmd=" + c.NDShape,
+			fmt.Sprintf("--no-database=false with the book named by %q differs from the same command without the switch: failed=%v (%s) vs %v; %s", c.NDNamedBy, with.Failed, with.Err, empty.Failed, firstDiff(empty.Stdout, with.Stdout))}}
 	}
 	if !same {
 		return []Finding{{"C16 no-database-is-not-an-empty-book cmd=" + c.NDShape,
